@@ -1,6 +1,7 @@
 import Dashu.Model.Int.Ops
 import Dashu.Proofs.Int.Repr
 import Dashu.Proofs.Int.Mul
+import Dashu.Proofs.Int.MulPrim
 /-
   Refinement of the operator layer (`add_ops.rs` / `mul_ops.rs` sign tables composed with the
   dispatch layer) and of multiplication by a word / double word (`mul/mod.rs`, `shift.rs`,
@@ -274,6 +275,7 @@ theorem mulDword_spec (W a b : Nat) (ha : a < 2 ^ (2 * W)) (hb : b < 2 ^ (2 * W)
     exact Nat.mul_lt_mul'' h.1 h.2
   · have hp4 : a * b < 2 ^ (2 * W) * 2 ^ (2 * W) := Nat.mul_lt_mul'' ha hb
     obtain ⟨h1, h2⟩ := spill_spec W (a * b) hp4
+    simp only [mulAddCarryDword_eq, Nat.add_zero]
     exact ⟨by rw [fromBuffer_value]; exact h1, fromBuffer_canon W _ h2⟩
 
 theorem mulLargeDword_spec (W : Nat) (buffer : List Nat) (rhs : Nat) (hw : IsWords W buffer)
@@ -399,6 +401,7 @@ theorem TRepr.sqr_spec (W : Nat) (hW : 4 ≤ W) (a : TRepr) (ha : a.Canon W) :
       show d * d < 2 ^ (2 * W)
       rw [two_pow_two_mul]; exact Nat.mul_lt_mul'' h h
     · obtain ⟨h1, h2⟩ := spill_spec W (d * d) (Nat.mul_lt_mul'' ha ha)
+      simp only [mulAddCarryDword_eq, Nat.add_zero]
       exact ⟨by rw [fromBuffer_value]; exact h1, fromBuffer_canon W _ h2⟩
   | large ws => exact squareLarge_spec W hW ws ha.large_words ha.large_ne_nil
 
